@@ -7,7 +7,7 @@ RULE = ("random curves (polynomial/rational, degree 0..3, scalar/vector) paired 
         "descriptions of the same function (weights scaled, polynomial curve with constant weights), unrelated curves, curves on other intervals, "
         "non-curves; both operand orders, == and !=.  Non-trivial: an interior knot or degree >= 2; distinct = distinct (A, B)."
         " Also: shared knots with raised multiplicities, perturbations of 1e-6 and 1e-7 (absolute), equal weight tuples on different knot vectors; operands with a history (used in ==/arithmetic, lossily cleaned with tolerances 1e-1..1e-5 "
-        "that are accepted or refused, a control point changed in place) against the state before and against a fresh twin of the current state.")
+        "that are accepted or refused, a control point changed in place) against the state before and against a fresh twin of the current state. Also: unrelated pairs of different degrees where the lower-degree curve has simple interior knots the other lacks, in both operand orders.")
 EXPLANATION = ("L3: the truth value of A == B is compared with `rf.eq` (Lean-decided equality of the span polynomials, cross-multiplied for "
                "rational curves); perturbations are far above 1e-9 or exactly zero so the tolerance band never decides.  L2: the same truth "
                "value vs the model of __eq__ (refinement to the union vector + 1e-9 comparison).")
@@ -162,7 +162,8 @@ def run(ctx):
         run_case(ctx, ser(dict(kind="pair", label="history", A=dict(U=U, P=P, W=W), B=dict(U=U, P=P, W=W), pre=pre)))
     labels = ["refined", "elevated", "refined+elevated", "perturbed", "perturbed-refined", "scaled-weights", "const-weights",
               "raised", "raised", "perturbed-raised",
-              "unrelated", "interval", "same", "shared-weights", "shared-weights", "unrelated-rational"]
+              "unrelated", "interval", "same", "shared-weights", "shared-weights", "unrelated-rational",
+              "unrelated-mixed-degree", "unrelated-mixed-degree"]
     for i in range(budget(ctx, 80, 1000)):
         label = rng.choice(labels)
         U, P, W = rand_curve(rng, pmax=3 if label in ("same", "perturbed", "unrelated") else 2, nintmax=2, force_zero=(i % 8 == 0))
@@ -198,6 +199,19 @@ def run(ctx):
             cst = rand_rat(rng) or F(1)
             P = [(cst / w,) for w in W]
             run_case(ctx, ser(dict(kind="pair", label=label, A=dict(U=U, P=P, W=W), B=dict(U=U2, P=P, W=W))))
+            continue
+        if label == "unrelated-mixed-degree":
+            # different functions of different degrees, the lower-degree one with simple interior knots the other does not have
+            p1 = rng.randint(1, 2)
+            U = rand_kv(rng, p=p1, nint=rng.randint(1, 2), maxmult=1)
+            U2 = rand_kv(rng, p=p1 + rng.randint(1, 3 - p1) if p1 < 3 else 3, nint=rng.randint(0, 1), interval=(U[0], U[-1]))
+            n1, n2 = kv_info(U)[1], kv_info(U2)[1]
+            d_ = rng.choice([1, 2])
+            A_ = dict(U=U, P=rand_points(rng, n1, d_), W=rand_weights(rng, n1, rng.choice(["none", "none", "pos"])))
+            B_ = dict(U=U2, P=rand_points(rng, n2, d_), W=None)
+            if rng.random() < 0.5:
+                A_, B_ = B_, A_
+            run_case(ctx, ser(dict(kind="pair", label=label, A=A_, B=B_)))
             continue
         if label == "unrelated-rational":
             U = rand_kv(rng, pmax=2, nintmax=1)
